@@ -47,6 +47,23 @@ def run(tier):
     # of the other histories with add_value
     av = generated(chk, 4, "{0, 3}", need_copy=True, addv=True)
     av = [h for h in av if any(o["op"] == "addv" for o in h["ops"])]
+    def copy_addv_add(h):
+        """a copy whose FIRST use is an add_value (append without lookup) and which is then asked for a value it holds"""
+        fresh = set()
+        for o in h["ops"]:
+            if o["op"] == "copy":
+                fresh.add(o["dst"])
+            elif o["op"] == "addv" and o["t"] in fresh:
+                fresh.discard(o["t"])
+                fresh.add(("v", o["t"]))
+            elif o["op"] == "add":
+                if ("v", o["t"]) in fresh:
+                    return True
+                fresh.discard(o["t"])
+            elif o["op"] in ("clear", "destroy"):
+                fresh.discard(o["t"]); fresh.discard(("v", o["t"]))
+        return False
+    hs += [h for h in av if copy_addv_add(h)][: (800 if tier == "quick" else None)]
     dup = [h for h in av if dup_copied_then_added(h)]
     rest = [h for h in av if not dup_copied_then_added(h)]
     chk.extra["histories_copying_a_repeated_value"] = len(dup)
